@@ -476,7 +476,7 @@ Hypothesis H_law : forall edges xs, H edges xs = hist edges xs.
 Theorem decode_occ_spec : forall lo hi nb fv, (2 <= nb)%nat ->
   decode_occ H (centres2 (lin_edges lo hi nb)) fv = Some (hist (lin_edges lo hi nb) fv).
 Proof.
-  intros lo hi nb fv Hnb. unfold decode_occ. rewrite edges4_lin by exact Hnb. simpl.
+  intros lo hi nb fv Hnb. unfold decode_occ. rewrite edges4_lin by exact Hnb. cbn [option_map].
   rewrite H_law, hist_scale_B by lia. reflexivity.
 Qed.
 
